@@ -6,6 +6,7 @@
 -/
 import LiteFSVerif.Model.Checksum
 import LiteFSVerif.Proofs.Image
+import LiteFSVerif.Proofs.Checksum
 
 set_option linter.unusedSimpArgs false
 
@@ -87,6 +88,36 @@ theorem C04_set_invalidates_block (c c' : Cache) (ps pgno : Nat) (v : Chk)
       injection h with h
       subst h
       simp [hb, List.getD_eq_getElem?_getD]
+
+/-- MAIN THEOREM.  For every cache state, WAL checksum table, page size and database size
+    (unbounded), whatever mixture of cached 256-page block sums and per-page sums `checksum` uses:
+    if every cached block sum is current (`BlocksOK`, preserved by every page write:
+    `C04_set_keeps_blocks_current`) and every block summed from the cache holds no WAL page, no
+    stale checksum beyond the database size and a zero lock-page slot (`CachedBlockOK`), then the
+    value `checksum` returns is the from-scratch checksum of the logical image: XOR of the newest
+    checksum of every page 1..pageN except the lock page, with the flag. -/
+theorem C04_checksum_is_from_scratch (c c' : Cache) (w : WalCks) (ps pageN lock : Nat) (newWAL : List (Nat × Chk)) (v : Chk)
+    (hl : lockPgno ps = .ok lock) (hok : BlocksOK c) (hN : 1 ≤ pageN)
+    (hcb : ∀ b, blockIgnored w newWAL b = false → b * blockSize + 1 ≤ pageN → CachedBlockOK c w newWAL lock pageN b)
+    (h : c.checksum w ps pageN newWAL = .ok (c', v)) :
+    v = specChecksum lock (effImage c w newWAL lock pageN) ∧ c'.pages = c.pages ∧ BlocksOK c' :=
+  ⟨checksum_is_spec c c' w ps pageN lock newWAL v hl hok hN hcb h,
+   (checksum_correct c c' w ps pageN lock newWAL v hl hok hN hcb h).2⟩
+
+/-- every page write keeps the cached block sums current -/
+theorem C04_set_keeps_blocks_current (c c' : Cache) (ps pgno : Nat) (v : Chk) (hok : BlocksOK c)
+    (h : c.set ps pgno v = .ok c') : BlocksOK c' := set_blocksOK c c' ps pgno v hok h
+
+/-- the empty cache satisfies the invariant -/
+theorem C04_init_blocks_current : BlocksOK {} := by
+  intro k hk; simp at hk
+
+/- The size hypothesis of `CachedBlockOK` is necessary: with a stale page checksum beyond the
+   database size inside a block that is summed from the cache the value differs from the
+   from-scratch checksum (found as a model = implementation agreement on a history real SQLite
+   cannot produce; DESIGN.md 11.4).  It is established by every truncation
+   (`resetDatabasePageChecksumsAfter`) and, for WAL shrinks, by the zero entries the commit adds to
+   the WAL table, which make the block "ignored". -/
 
 /-- the lock page number exists exactly for non-zero page sizes (Go panics otherwise) -/
 theorem C04_lock_defined (ps : Nat) (h : ps ≠ 0) : lockPgno ps = .ok (1073741824 / ps + 1) := by
